@@ -1018,7 +1018,7 @@ def _ref_rejects(b: Builder, stmt):
     # arrays: copy, but keep read-only flags (needed for the read-only-target failure kind)
     scratch.env = {}
     for h, v in r.env.items():
-        c = v.copy()
+        c = v.copy(order="K")  # keep F-like layouts (matters for in-place shape assignment)
         c.flags.writeable = v.flags.writeable
         scratch.env[h] = c
     try:
@@ -1098,14 +1098,29 @@ def step_fail(b: Builder):
         # assigning a shape that would need a copy (non-contiguous tensor): NumPy refuses
         cands = [h for h in writable_targets(b) if b.val(h).ndim >= 2 and not b.val(h).flags.c_contiguous and b.val(h).size > 1]
         if not cands:
-            return None
+            # make one: transpose a tensor that has >= 2 axes of length >= 2
+            src = [h for h in writable_targets(b) if sum(1 for x in b.shape(h) if x >= 2) >= 2]
+            if not src:
+                return None
+            t0 = b.pick(src)
+            tv = b.op("T", [t0])
+            if tv is None or b.val(tv).flags.c_contiguous:
+                return None
+            cands = [tv]
         t = b.pick(cands)
         size = int(np.prod(b.shape(t)))
         inner = {"k": "inplace", "kind": "shape", "target": t, "p": {"shape": [size]}}
     elif kind == "readonly_target":
         ro = [h for h, v in r.env.items() if r.is_tensor[h] and not r.isint[h] and not v.flags.writeable and v.size > 0]
         if not ro:
-            return None
+            src = [h for h in tens if b.val(h).size > 0 and b.val(h).ndim <= 2]
+            if not src:
+                return None
+            t0 = b.pick(src)
+            tv = b.op("broadcast_to", [t0], {"shape": [2] + list(b.shape(t0))})
+            if tv is None:
+                return None
+            ro = [tv]
         t = b.pick(ro)
         v = b.scalar_leaf()
         inner = {"k": "inplace", "kind": "setitem", "target": t, "args": [v],
